@@ -15,8 +15,8 @@ import (
 // C03-I (spec level): rule ID -> handler wiring and category membership, observed through behaviour. For each spec
 // version and each scenario of the catalogue (one documented edit applied to a base schema), every documented
 // breaking rule registered in the spec is run through its *registered* handler (RuleSpec.Handler.Handle, i.e. the
-// real pair-matching wrappers and the real handler the builder wired to the ID). The set of rules that fire must be
-// exactly the scenario's documented set. A rule wired to another rule's handler, or dropped, changes some set.
+// real pair-matching wrappers and the real handler the builder wired to the ID). Every rule of the scenario's documented set must fire
+// (compatible scenarios: none may fire). A rule wired to another rule's handler, or dropped, changes some set.
 
 // vbsCtx answers bufcheckserverutil's two (unexported) context keys like the context that Before() builds.
 type vbsCtx struct {
@@ -274,8 +274,10 @@ func VerifLemma_C03I_SpecScenarios() {
 		}
 		if want[r.ID] {
 			verifAssert(fired[r.ID], "the rule documented for the edit fires through its registered handler")
-		} else {
-			verifAssert(!fired[r.ID], "no other rule fires on the edit")
+		} else if len(sc.want) == 0 {
+			// compatible scenarios (identity, compiler-renamed synthetic oneof): C04 requires silence. For breaking
+			// edits the property does not forbid further rules from firing, so nothing is asserted about them.
+			verifAssert(!fired[r.ID], "nothing fires on a compatible scenario")
 		}
 	}
 	for i := 0; i+1 < len(vbCategoryOrder); i++ {
